@@ -132,13 +132,13 @@ def float_reduced(t):
 
 def float_tables(t, rng, tier):
     big = tier == 'thorough'
-    t1 = uniq([(b,) for b in float_boundaries(t) + float_random(t, rng, 4000 if big else 400)])
+    t1 = uniq([(b,) for b in float_boundaries(t) + float_random(t, rng, 2000 if big else 400)])
     red = float_reduced(t)
     t2 = [(a, b) for a in red for b in red]
-    rr = float_random(t, rng, 2 * (6000 if big else 500))
+    rr = float_random(t, rng, 2 * (2500 if big else 500))
     t2 += [(rr[2 * i], rr[2 * i + 1]) for i in range(len(rr) // 2)]
     bd = float_boundaries(t)
-    for i in range(3000 if big else 300):           # boundary value against random / boundary value
+    for i in range(1500 if big else 300):           # boundary value against random / boundary value
         t2.append((rng.choice(bd), rng.choice(bd)))
         t2.append((rng.choice(bd), rng.choice(rr)))
         t2.append((rng.choice(rr), rng.choice(bd)))
@@ -146,7 +146,7 @@ def float_tables(t, rng, tier):
     # fma: small cube + products whose rounding error is the whole answer (z = -fl(x*y)) + random
     r3 = [0, t.sign, t.of(1.0), t.of(-1.0), t.pow2(0) + 1, t.pow2(0) - 1, t.of(3.0), t.of(0.1), t.max, 1, t.inf, t.qnan]
     t3 = [(a, b, c) for a in r3 for b in r3 for c in r3]
-    for i in range(4000 if big else 400):
+    for i in range(2000 if big else 400):
         k1, k2 = rng.randint(-20, 20), rng.randint(-20, 20)
         x = ((k1 + t.bias) << t.mant) | rng.getrandbits(t.mant) | (t.sign if rng.getrandbits(1) else 0)
         y = ((k2 + t.bias) << t.mant) | rng.getrandbits(t.mant) | (t.sign if rng.getrandbits(1) else 0)
@@ -155,7 +155,7 @@ def float_tables(t, rng, tier):
         t3.append((x, y, z))
         t3.append((x, y, z ^ 1))
         t3.append((x, y, t.of(float(rng.randint(-5, 5)))))
-    rr = float_random(t, rng, 3 * (2000 if big else 200))
+    rr = float_random(t, rng, 3 * (1000 if big else 200))
     t3 += [(rr[3 * i], rr[3 * i + 1], rr[3 * i + 2]) for i in range(len(rr) // 3)]
     t3 = uniq(t3)
     return t1, t2, t3
@@ -199,17 +199,17 @@ def int_reduced(w):
 
 def int_tables(w, rng, tier):
     big = tier == 'thorough'
-    t1 = uniq([(b,) for b in int_boundaries(w) + int_random(w, rng, 6000 if big else 300)])
+    t1 = uniq([(b,) for b in int_boundaries(w) + int_random(w, rng, 1500 if big else 300)])
     red = int_reduced(w)
     t2 = [(a, b) for a in red for b in red]
-    rr = int_random(w, rng, 2 * (8000 if big else 400))
+    rr = int_random(w, rng, 2 * (2000 if big else 400))
     t2 += [(rr[2 * i], rr[2 * i + 1]) for i in range(len(rr) // 2)]
     bd = int_boundaries(w)
-    for i in range(3000 if big else 300):
+    for i in range(1500 if big else 300):
         t2.append((rng.choice(bd), rng.choice(bd)))
         t2.append((rng.choice(bd), rng.choice(rr)))
     # multiples (gcd / lcm with a non-trivial common factor)
-    for i in range(3000 if big else 300):
+    for i in range(1500 if big else 300):
         g = rng.getrandbits(rng.randint(1, w // 2 - 1)) | 1
         a = rng.getrandbits(rng.randint(1, w // 2 - 1))
         b = rng.getrandbits(rng.randint(1, w // 2 - 1))
@@ -219,12 +219,12 @@ def int_tables(w, rng, tier):
     shifts = [0, 1, 2, 7, 8, 9, 15, 16, 17, 31, 32, 33, 63, 64, 65, 127, 128, 1000, 0x7fffffff, -1, -2, -7, -8, -9, -31, -32, -33, -63, -64, -65,
               -128, -1000, -0x80000000]
     ts = [(a, s & 0xffffffff) for a in int_boundaries(w)[:: (1 if big else 4)] for s in shifts]
-    for i in range(4000 if big else 400):
+    for i in range(2000 if big else 400):
         ts.append((rng.getrandbits(w), rng.getrandbits(32)))
     ts = uniq(ts)
     # (value, bit position < w)
     tp = [(a, p) for a in red for p in range(w)]
-    for i in range(4000 if big else 400):
+    for i in range(2000 if big else 400):
         tp.append((rng.getrandbits(w), rng.randrange(w)))
     tp = uniq(tp)
     return t1, t2, ts, tp
@@ -268,12 +268,12 @@ def cstr_tables(rng, tier):
     alpha = [0x61, 0x62, 0x63, 0xe9] if big else [0x61, 0x62, 0xe9]
     strs = all_strings(alpha, 3)
     longer = []
-    for i in range(400 if big else 60):
+    for i in range(300 if big else 60):
         n = rng.randint(4, 7)
         longer.append(bytes(rng.choice(alpha + [0x7f, 0x80, 0xff, 0x01, 0x20]) for _ in range(n)))
     s1 = uniq([(pack(s),) for s in strs + longer])
     s2 = [(pack(a), pack(b)) for a in strs for b in strs]
-    for i in range(3000 if big else 300):
+    for i in range(1500 if big else 300):
         a = rng.choice(longer)
         b = rng.choice(longer + strs)
         if rng.getrandbits(1):          # related strings: common prefix / substring
@@ -298,7 +298,7 @@ def cstr_tables(rng, tier):
 # ------------------------------------------------------------------------------------------ scenario seeds
 def scen_tables(rng, tier):
     big = tier == 'thorough'
-    n = 1500 if big else 150
+    n = 750 if big else 150
     fixed = [0, 1, 2, 3, 0xffffffffffffffff, 0x8000000000000000, 0x0123456789abcdef, 0x5555555555555555]
     return uniq([(x,) for x in fixed] + [(rng.getrandbits(64),) for _ in range(n)])
 
@@ -306,14 +306,14 @@ def scen_tables(rng, tier):
 # ------------------------------------------------------------------------------------------ parts
 def cmath_part(t, sfx, tables, L):
     t1, t2, t3 = tables
-    L.table('t1', t1)
-    L.table('t2', t2)
-    L.table('t3', t3)
+    L.table('t1_' + sfx, t1)
+    L.table('t2_' + sfx, t2)
+    L.table('t3_' + sfx, t3)
     for f in ('floor', 'ceil', 'trunc', 'round', 'rint', 'lrint', 'llrint', 'signbit', 'fabs', 'abs', 'isnan', 'isinf', 'isfinite'):
-        L.ob(f + '_' + sfx, f + '.' + sfx, 't1')
+        L.ob(f + '_' + sfx, f + '.' + sfx, 't1_' + sfx)
     for f in ('copysign', 'fmin', 'fmax', 'fdim', 'fmod', 'nextafter', 'midpoint'):
-        L.ob(f + '_' + sfx, f + '.' + sfx, 't2')
-    L.ob('fma_' + sfx, 'fma.' + sfx, 't3')
+        L.ob(f + '_' + sfx, f + '.' + sfx, 't2_' + sfx)
+    L.ob('fma_' + sfx, 'fma.' + sfx, 't3_' + sfx)
 
 
 class Listing:
@@ -406,7 +406,7 @@ CCTYPE = ('isalnum', 'isalpha', 'isblank', 'iscntrl', 'isdigit', 'isgraph', 'isl
           'tolower', 'toupper')
 BIT1 = ('popcount', 'countl_zero', 'countl_one', 'countr_zero', 'countr_one', 'bit_width', 'bit_ceil', 'bit_floor', 'has_single_bit', 'byteswap')
 BITPOS = ('set_bit', 'reset_bit', 'flip_bit', 'test_bit', 'set_bit0', 'set_bit1')
-SATCASTS = ('i32_i8', 'i32_u8', 'u32_i8', 'i64_i32', 'u64_i64', 'i64_u64', 'i8_u8', 'u8_i8', 'i16_u32', 'u64_u16', 'i64_i16', 'i32_u32', 'u32_i32')
+SATCASTS = ('i32_i8', 'i32_u8', 'u32_i8', 'i64_i32', 'u64_i64', 'i64_u64', 'i16_u32', 'u64_u16', 'i64_i16', 'i32_u32', 'u32_i32')
 
 
 def build(parts, seed, tier, pinned):
@@ -425,7 +425,7 @@ def build_part(L, part, seed, tier):
         cmath_part(F32, 'f32', float_tables(F32, rng, tier), L)
     elif part == 'cmld':
         big = tier == 'thorough'
-        hi = float_boundaries(F64) + float_random(F64, rng, 2000 if big else 200)
+        hi = float_boundaries(F64) + float_random(F64, rng, 1000 if big else 200)
         t1 = [(b, 0) for b in hi]
         # beyond the double grid: n + .5, n +- 1 for n = 2^k (k = 52..62), 2^63 - 1, 2^63 - .5, -2^63 - 1, both signs
         for k in range(52, 64):
@@ -434,7 +434,7 @@ def build_part(L, part, seed, tier):
                     continue
                 for sgn in (1.0, -1.0):
                     t1.append((F64.of(sgn * 2.0 ** k), F64.of(sgn * lo)))
-        for i in range(2000 if big else 200):
+        for i in range(1000 if big else 200):
             k = rng.randint(53, 62)
             n = float((1 << k) + (rng.getrandbits(k - 11) << 11))        # exact double
             lo = rng.choice((0.5, -0.5, 0.25, 0.75, -0.25, 1.0, 3.0, 0.4999999))
